@@ -1,5 +1,6 @@
 """C14 -- map rotation, placement, windowing, symmetrisation share one active convention"""
 from .common import *
+from . import C11 as _c11
 from . import C05 as _c05
 from .maskmodel import read_summary
 
@@ -346,6 +347,7 @@ def o144(ctx):
 
 def _obligations():
     return [
+        Obligation("O14.9", "map files given by path are read as written and results are written as computed (shared with C11)", lambda ctx: (_c11.o111(ctx), _c11.o115(ctx)), floor=37),
         Obligation("O14.1", "rotate: affine_transform receives the pull-back [[R^T, c - R^T c],[0,1]], c = floor(shape/2)", o141, floor=12),
         Obligation("O14.2", "place_object: rotation/position/colour of the same particle, transpose_rotation, surroundings kept", o142, floor=6),
         Obligation("O14.4", "symmetrize_volume: copies rotated by k*360/n about z for all n, initialised sum, divided by n", o144, floor=40),
